@@ -778,6 +778,13 @@ C18Bundle(pre, e, post) ==
 C18State(s) ==
   /\ Sub("bitmap_exact", \A b \in DOMAIN s.bundle : s.bundle[b].open = s.bundle[b].existing)
   /\ Sub("locked_has_liquidity", \A k \in DOMAIN s.lock : k \in DOMAIN s.pos /\ ~(s.pos[k].liq \doteq 0))
+  /\ Sub("ranges_valid", \A k \in DOMAIN s.pos :
+         LET x == s.pos[k] IN
+         (x.pool \in DOMAIN s.pool) =>
+           LET sp_ == s.pool[x.pool].spacing
+               fr  == (443636 \div sp_) * sp_
+           IN /\ x.lo < x.up /\ x.lo % sp_ = 0 /\ x.up % sp_ = 0 /\ (0 - 443636) <= x.lo /\ x.up <= 443636
+              /\ (sp_ >= 32768 => (x.lo = 0 - fr /\ x.up = fr)))
   /\ Sub("position_token_supply_one", \A k \in DOMAIN s.pos :
          LET m == s.pos[k].mint IN (m \in DOMAIN s.mint /\ ~(\E b \in DOMAIN s.bundle : s.bundle[b].mint = m)) => (s.mint[m].supply \doteq 1 /\ s.mint[m].auth = "none"))
 
